@@ -15,9 +15,10 @@ import (
 // ---- C06 in pkg/api: the transactional publication of staged fonts and of font cheat sheets ----
 
 type verifTxPlan struct {
-	calls  int
-	failAt [2]int
-	failed int
+	calls      int
+	failAt     [2]int
+	failed     int
+	failedStep []string // "op name" of every injected failure
 }
 
 var verifTx *verifTxPlan
@@ -31,6 +32,7 @@ func verifTxStep(op, name string) error {
 		if at != 0 && p.calls == at {
 			p.failAt[i] = 0
 			p.failed++
+			p.failedStep = append(p.failedStep, op+" "+name)
 			return &fs.PathError{Op: op, Path: name, Err: errVerifTxInjected}
 		}
 	}
